@@ -167,7 +167,9 @@ class MessagePackDocument(HierDictDocument):
             try:
                 ctx.in_document = msgpack.unpackb(b''.join(ctx.in_string))
             except ValueError as e:
-                raise MessagePackDecodeError(' '.join(str(a) for a in e.args))
+                # the arguments can hold pieces of the request (ExtraData)
+                raise MessagePackDecodeError(' '.join(a if isinstance(a, str)
+                                              else repr(a) for a in e.args))
 
     def gen_method_request_string(self, ctx):
         """Uses information in context object to return a method_request_string.
